@@ -172,7 +172,20 @@ Theorem C09_error_terms_are_second_order s x c e : fmt64 s -> fmt64 x ->
 Proof. intros Fs Fx. exact (conj (err_term_small s x Fs Fx) (comp_round_small c e)). Qed.
 Print Assumptions C09_error_terms_are_second_order.
 
-(* Tie B: the update statements of the kernel are the ones the theorems above are about, on this crun *)
+(* the value reported, fl(s + c), against the exact sum W of all updates (= the sum of the window's content): first order in
+   the window, second order in the history - H bounds every running sum the group ever had, n counts the updates *)
+Theorem C09_reported_sum_error xs H : Forall fmt64 xs -> sums_le xs 0 H ->
+  let '(s', c', _) := krun xs 0 0 0 in
+  (Rabs (fl64 (s' + c') - rsum xs) <= u64 * Rabs (rsum xs) + (1 + u64) * Dbound (length xs) H 0)%R.
+Proof. exact (reported_sum_error xs H). Qed.
+Print Assumptions C09_reported_sum_error.
+
+Theorem C09_history_enters_at_second_order n H : (0 <= H)%R ->
+  (Dbound n H 0 <= INR n * INR n * (u64 * u64) * H * q64 ^ n)%R.
+Proof. exact (history_is_second_order n H). Qed.
+Print Assumptions C09_history_enters_at_second_order.
+
+(* Tie B: the update statements of the kernel are the ones the theorems above are about, on this run *)
 Theorem C09_sum_updates_are_the_source's : gen_rolling_sum_updates = rolling_sum_updates.
 Proof. exact tie_rolling_sum_updates. Qed.
 Print Assumptions C09_sum_updates_are_the_source's.
